@@ -6,7 +6,6 @@ Require Import PGM.Base.Alg PGM.Base.Sums PGM.Model.Domain PGM.Model.Dataset PGM
 Set Implicit Arguments.
 
 Definition valid_on (d : dom) (x : asg) := forall a n, lookup d a = Some n -> x a < n.
-Definition dep_on (K : Type) (S : list nat) (t : asg -> K) := forall x y, (forall a, In a S -> x a = y a) -> t x = t y.
 
 Lemma index_of_spec a : forall l i, index_of a l = Some i -> i < length l /\ forall d, nth i l d = a.
 Proof. induction l as [|b l IH]; simpl; intros i H. discriminate.
